@@ -71,7 +71,7 @@ CONTROLS = [
         '                ret.push(locate.str(&s), Some((path.as_ref(), range)));\n            }\n            NodeEvent::Leave(RefNode::ResetallCompilerDirective(_))', 1)]),
     ('x4b-macro-usage-not-skipped', 'X4', 'syn', 'unhandled-kind', [(PPF, '            NodeEvent::Enter(RefNode::TextMacroUsage(x)) => {', '            NodeEvent::Enter(RefNode::TextMacroUsage(x)) if false => {', 1)]),
     ('x5-polarity', 'X5', 'syn', 'polarity', [(PPF, 'if !defines.contains_key(&ifid) && !is_predefined_text_macro(&ifid) {', 'if !defines.contains_key(&ifid) && is_predefined_text_macro(&ifid) {', 1)]),
-    ('x6-ifndef-keeps-else', 'X6', 'syn', 'ifdef-ifndef-differ', [(PPF,
+    ('x6-ifndef-keeps-else', 'X15', 'syn', 'else-branch', [(PPF,
         '                    if hit {\n                        skip_nodes.push(elsebody.into());\n                    }\n                }\n            }\n            NodeEvent::Enter(RefNode::TextMacroDefinition(x))',
         '                    if !hit {\n                        skip_nodes.push(elsebody.into());\n                    }\n                }\n            }\n            NodeEvent::Enter(RefNode::TextMacroDefinition(x))', 1)]),
     ('x7-guard-weakened', 'X7', 'syn', 'skip_guard', [(PPF, '        if skip {\n            continue;\n        }', '        if skip && !ignore_include {\n            continue;\n        }', 1)]),
